@@ -192,7 +192,7 @@ def check(prog, rep, tier):
                                 found=src_of(node), expected='counters written only by BGP methods', key=key)
         rep.floor('R18.c', '%s stores' % attr, n, 5)
     f = prog.func('yabgp.api.utils.get_peer_msg_statistic')
-    txt = src_of(f.node)
+    txt = common.expand_helpers(prog.module('yabgp.api.utils'), src_of(f.node))
     ok = "['factory'].fsm.protocol.msg_sent_stat" in txt and "['factory'].fsm.protocol.msg_recv_stat" in txt
     if ok:
         rep.ok('R18.c', 'rest-view', file=f.file, line=f.node.lineno)
